@@ -68,7 +68,7 @@ func (g *HistGen) c12Op(nextEnt *int) []Op {
 	}
 	e := g.ent(Pick(r, g.Ents).ID)
 	kinds := []string{"edit-subject", "edit-subject", "edit-exts", "edit-issuer", "edit-profile-ref", "add-entity", "remove-entity",
-		"del-art", "trunc-art", "strip-key", "replace-art", "strip-hash", "touch"}
+		"del-art", "trunc-art", "strip-key", "replace-art", "strip-hash", "touch", "tz"}
 	if len(g.Profs) > 0 {
 		kinds = append(kinds, "edit-profile")
 	}
@@ -166,6 +166,13 @@ func (g *HistGen) c12Op(nextEnt *int) []Op {
 		}
 		ch := g.children(e)
 		// children are re-parented to the removed entity's issuer (or become roots)
+		if e.Issuer == "" {
+			for _, c := range ch {
+				if g.Csr[c.ID] {
+					return nil // a request-based entity cannot become a root (decided before anything is changed)
+				}
+			}
+		}
 		for _, c := range ch {
 			nc := c.Clone()
 			nc.Issuer = e.Issuer
@@ -210,6 +217,10 @@ func (g *HistGen) c12Op(nextEnt *int) []Op {
 		delete(g.Csr, e.ID)
 	case "touch":
 		out = append(out, Op{K: k, Ent: e.ID})
+	case "tz":
+		// the next run takes place on a machine in another zone: configured dates are local midnights,
+		// so a clean run there gives other instants, and the incremental one has to follow
+		out = append(out, Op{K: "tz", Arg: Pick(r, []string{"UTC", "Europe/Berlin", "Asia/Tokyo", "America/New_York", "fixed:+05:30", "Pacific/Kiritimati", "America/Sao_Paulo"}), Label: "zone-change"})
 	}
 	return out
 }
@@ -270,7 +281,7 @@ func genC12(r *Rng, tier string) *Plan {
 				for id, v := range g.Csr {
 					csrBefore[id] = v
 				}
-				if ops := g.c12Op(&nextEnt); len(ops) > 0 && ops[0].K == "replace-art" {
+				if ops := g.c12Op(&nextEnt); len(ops) > 0 && (ops[0].K == "replace-art" || ops[0].K == "tz") {
 					for _, o := range ops {
 						g.P.Add(o) // sequential, after the run
 					}
@@ -338,6 +349,10 @@ func (o *c12Oracle) AfterRun(w *World, op *Op, res *RunResult) {
 		return
 	}
 	if !res.OK() {
+		if why := w.ModelInconsistent(); why != "" {
+			w.Harness = "generator produced a forest that is none: " + why
+			return
+		}
 		w.Fail("final-run-failed:"+res.FailClass(), "Run{-m -c} on a runnable world failed: stage=%s err=%s", res.Stage, res.Err)
 		return
 	}
@@ -481,6 +496,11 @@ func execC12(t *testing.T, plan *Plan) *World {
 	// clone: configs, profiles, and user-supplied (hash-less) artifacts as they were in front of the final run
 	sp := &Plan{Prop: "C12", Seed: plan.Seed, TZ: plan.TZ, GranNs: plan.GranNs, LatMicros: plan.LatMicros, Meta: map[string]string{"arm": "scratch"}}
 	sp.Clock0 = int64(final.T0.Sub(simEpoch).Seconds())
+	for _, op := range plan.Ops {
+		if op.K == "tz" {
+			sp.TZ = op.Arg // the clean run happens where the final run happened
+		}
+	}
 	id := 1
 	var profFiles []string
 	for f := range w.Profs {
@@ -524,6 +544,12 @@ func execC12(t *testing.T, plan *Plan) *World {
 		}
 		w.Hit("differential-compared")
 		nh, ns := normalise(w, e, ah.Cert), normalise(ws, ws.Ents[e.ID], as.Cert)
+		if v := validitySpecOf(w, e); sp.TZ != plan.TZ && (v == nil || v.From == "") {
+			// an `until` without `from` is a local midnight too, but a validity without `from` is outside
+			// what the stored hash covers (C13's open finding); C12 does not report it a second time
+			delete(nh, "notAfter")
+			delete(ns, "notAfter")
+		}
 		// the issuer DN is only comparable when the issuer's certificate is of the same origin in both
 		// worlds: a user-supplied issuer can legitimately be regenerated in the scratch world (its own
 		// issuer is created there), which changes the name its children carry
